@@ -39,6 +39,8 @@ var specialBlocks = []string{"10.0.0.0/8", "172.16.0.0/12", "192.168.0.0/16", "1
 
 var publicHosts = []string{"8.8.8.8", "1.1.1.1", "93.184.216.34", "2001:4860:4860::8888", "2606:4700:4700::1111", "126.255.255.255", "128.0.0.0", "2a00:1450:4001::1"}
 
+var probeHosts []net.IP
+
 func subIP(out string, seed uint64, tier string, arg string) {
 	rng := NewRNG(seed)
 	rep := newReport("ip", seed, tier)
@@ -87,7 +89,18 @@ func subIP(out string, seed uint64, tier string, arg string) {
 		mask := net.CIDRMask(plen, width)
 		ip := ipFromBig(width, base).Mask(mask)
 		n := net.IPNet{IP: ip, Mask: mask}
-		emit(fmt.Sprintf("ipnet\t%d\t%s\t%d", width, bigFromIP(ip).String(), plen), b2s(util.IntersectsIANAReserved(n)))
+		inter := util.IntersectsIANAReserved(n)
+		emit(fmt.Sprintf("ipnet\t%d\t%s\t%d", width, bigFromIP(ip).String(), plen), b2s(inter))
+		if !inter {
+			// the property as an oracle on the real code: a network that contains a reserved address intersects the reserved space
+			for _, x := range probeHosts {
+				if n.Contains(x) && util.IsIANAReserved(x) {
+					rep.violate(Violation{"C19", fmt.Sprintf("IntersectsIANAReserved(%s) is false although the network contains the reserved address %s", n.String(), x.String()),
+						"contains-reserved-not-intersecting:" + n.String(), map[string]interface{}{"network": n.String(), "address": x.String()}})
+					break
+				}
+			}
+		}
 		if width == 32 {
 			// the same network as zcrypto hands over a 32-byte iPAddress name constraint: 16-byte address, 16-byte mask
 			m16 := net.CIDRMask(96+plen, 128)
@@ -109,6 +122,15 @@ func subIP(out string, seed uint64, tier string, arg string) {
 	var blocks []string
 	blocks = append(blocks, util.VerifReservedNetworks()...)
 	blocks = append(blocks, specialBlocks...)
+	for _, cidr := range blocks {
+		if _, bn, err := net.ParseCIDR(cidr); err == nil {
+			w := len(bn.IP) * 8
+			pl, _ := bn.Mask.Size()
+			first := bigFromIP(bn.IP)
+			last := new(big.Int).Sub(new(big.Int).Add(first, new(big.Int).Lsh(one, uint(w-pl))), one)
+			probeHosts = append(probeHosts, ipFromBig(w, first), ipFromBig(w, last))
+		}
+	}
 	for _, cidr := range blocks {
 		_, n, err := net.ParseCIDR(cidr)
 		if err != nil {
